@@ -4,6 +4,7 @@ package snaps
 
 import (
 	"strings"
+	"sync"
 
 	"github.com/gkampitakis/go-snaps/internal/vxrt"
 )
@@ -216,4 +217,31 @@ func H_C20_skips() {
 		want = skipSymbol + itoa(k) + " snapshots skipped\n"
 	}
 	vxrt.Assert(strings.Contains(out, want), "C20:summary-counts-every-skip-call")
+}
+
+// H_C20_concurrent: outcome counters and the skip list are updated from two
+// goroutines; with scheduling points at every access to the shared map and
+// slice no update is lost (final counts = initial + 2 each).
+func H_C20_concurrent() {
+	vxrt.CI(false)
+	vxrt.EnvFixed("NO_COLOR", "1")
+	_ = isCI
+	vxrt.Shared(testEvents)
+	vxrt.Shared(skippedTests)
+	ev := []uint8{erred, added, updated, passed}[vxrt.Choice("event", 4)]
+	before := testEvents.items[ev]
+	skipsBefore := len(skippedTests.values)
+	var wg sync.WaitGroup
+	wg.Add(2)
+	for g := 0; g < 2; g++ {
+		name := []string{"TestP", "TestQ"}[g]
+		go func() {
+			defer wg.Done()
+			testEvents.register(ev)
+			trackSkip(newT(name))
+		}()
+	}
+	wg.Wait()
+	vxrt.Assert(testEvents.items[ev] == before+2, "C20:no-lost-outcome-count")
+	vxrt.Assert(len(skippedTests.values) == skipsBefore+2, "C20:no-lost-skip-record")
 }
